@@ -473,5 +473,69 @@ pub proof fn theorem_generated_proof_verifies(alg: Seq<char>, t: Seq<Vec<MerkleN
     lemma_playback_complete(alg, t, lay, r, 0, i, pf, 0);
 }
 
+// ---- leaf soundness, assuming H is injective ----
+pub open spec fn h_injective() -> bool {
+    forall|alg: Seq<char>, a: Seq<u8>, b: Seq<u8>| #[trigger] H(alg, a) == #[trigger] H(alg, b) ==> a == b
+}
+
+proof fn lemma_concat_cancel_left(p: Seq<u8>, x: Seq<u8>, y: Seq<u8>)
+    requires p + x == p + y
+    ensures x == y
+{
+    let a = p + x; let b = p + y;
+    assert(a.len() == p.len() + x.len());
+    assert(b.len() == p.len() + y.len());
+    assert(x.len() == y.len());
+    assert forall|i: int| 0 <= i < x.len() implies x[i] == y[i] by {
+        assert(a[p.len() + i] == x[i]);
+        assert(b[p.len() + i] == y[i]);
+    }
+    assert(x =~= y);
+}
+proof fn lemma_concat_cancel_right(p: Seq<u8>, x: Seq<u8>, y: Seq<u8>)
+    requires x + p == y + p
+    ensures x == y
+{
+    let a = x + p; let b = y + p;
+    assert(a.len() == x.len() + p.len());
+    assert(b.len() == y.len() + p.len());
+    assert(x.len() == y.len());
+    assert forall|i: int| 0 <= i < x.len() implies x[i] == y[i] by {
+        assert(a[i] == x[i]);
+        assert(b[i] == y[i]);
+    }
+    assert(x =~= y);
+}
+
+// with index and proof fixed, two leaf values that play back to the same result are equal
+pub proof fn lemma_leaf_soundness(alg: Seq<char>, lay: Seq<usize>, stop: int, k: int, h1: Seq<u8>, h2: Seq<u8>, idx: int, pf: Seq<Seq<u8>>, pi: int)
+    requires
+        h_injective(),
+        playback(alg, lay, stop, k, h1, idx, pf, pi) is Some,
+        playback(alg, lay, stop, k, h1, idx, pf, pi) == playback(alg, lay, stop, k, h2, idx, pf, pi),
+    ensures h1 == h2
+    decreases lay.len() - k
+{
+    if k < 0 || k >= lay.len() || lay[k] as int == stop {
+    } else {
+        let layer = lay[k] as int;
+        if idx % 2 == 1 {
+            if idx - 1 < layer {
+                if 0 <= pi < pf.len() {
+                    lemma_leaf_soundness(alg, lay, stop, k + 1, H(alg, pf[pi] + h1), H(alg, pf[pi] + h2), idx / 2, pf, pi + 1);
+                    assert(pf[pi] + h1 == pf[pi] + h2);
+                    lemma_concat_cancel_left(pf[pi], h1, h2);
+                }
+            } else { lemma_leaf_soundness(alg, lay, stop, k + 1, h1, h2, idx / 2, pf, pi); }
+        } else if idx + 1 < layer {
+            if 0 <= pi < pf.len() {
+                lemma_leaf_soundness(alg, lay, stop, k + 1, H(alg, h1 + pf[pi]), H(alg, h2 + pf[pi]), idx / 2, pf, pi + 1);
+                assert(h1 + pf[pi] == h2 + pf[pi]);
+                lemma_concat_cancel_right(pf[pi], h1, h2);
+            }
+        } else { lemma_leaf_soundness(alg, lay, stop, k + 1, h1, h2, idx / 2, pf, pi); }
+    }
+}
+
 } // verus!
 fn main() {}
